@@ -335,6 +335,8 @@ static Outcome ArchiveLeg(RunCtx& ctx, Outcome& out)
 	const std::string tags = std::string("leg=archive archive=") + ArchiveName(archive) + " enc=" + EncName(enc) + (bom ? " bom=1" : " bom=0");
 	if (!r.isStd) return Violation("WRONG_EXCEPTION", tags, "non-std exception");
 	if (!r.ok) return Violation("WRONG_EXCEPTION", tags + " what=unloadable exc=" + r.cat, "a well-formed " + std::string(EncName(enc)) + " document failed to load: " + r.cat + " (" + r.what + ")");
+	// the CSV table has exactly one row: a phantom row after the last line break is a loss-less-ness violation too
+	if (which == 0 && (root.loadedCount != 1 || root.extra)) return Violation("WRONG_VALUE", tags + " what=rows", "the CSV document has one row, the loader saw " + std::to_string(root.loadedCount) + (root.extra ? "+more" : ""));
 	const DynNode& got = which == 0 ? root.items[0].items[0] : root.items[0];
 	std::string expect = ToUtf8(text);
 	if (got.s != expect) return Violation("WRONG_VALUE", tags + " what=text", "loaded string differs: " + DiffAt(sim::hex(expect, 4096), sim::hex(got.s, 4096)));
